@@ -235,7 +235,7 @@ Proof. exact claim_amount_is_announced. Qed.
 
 (** ... and every state reached from the empty one has one entry per payment hash. *)
 Theorem C04_reachable_sorted : forall h ops, sorted (claimable (fst (run (init h) ops))).
-Proof. intros h ops. apply run_sorted. apply init_sorted. Qed.
+Proof. exact reachable_sorted. Qed.
 
 (** the history of H2: part A fails at the deadline, the late claim fails part B back *)
 Example C04_ex_late_claim :
